@@ -145,6 +145,7 @@ def check_C14(ctx):
     cases = front.include_graphs(ctx, ctx.n(400, 4000))
     sa, sb = front.corr_scan(ctx, cases)
     scan_oracle(ctx, cases, sa, 'C14')
+    session_oracle(ctx, 'C14')
     ctx.cov['rule'] = ('byte strings: exhaustive up to the stated length over a 30-symbol significant alphabet, a sample of the next length, '
                        'random strings biased to keyword fragments, mutated programs; non-trivial = at least two tokens or an operator/quoted/END DEFINE token')
     ctx.sample({'buffer': repr(inputs[-1])})
@@ -179,6 +180,39 @@ def scan_oracle(ctx, cases, sa, pid):
             ctx.dist('err_' + e[0])
 
 
+def session_oracle(ctx, pid):
+    """the scanner has no memory: in an editing session (one process, files changing between the calls) every call returns
+    the tokenisation / errors of the files passed to THAT call"""
+    sessions = front.edit_sessions(ctx, ctx.n(25, 200))
+    flat = [rq for sess in sessions for rq in sess]
+    outs = vlib.run_batch([ctx.harness], ['SCAN ' + files_req(m, f) for (m, f) in flat], per_line_timeout=60, workers=1)
+    ctx.count('SCAN', len(flat))
+    P = front.pe()
+    names = {v: k for k, v in P.items()}
+    i = 0
+    for sess in sessions:
+        for j, (m, f) in enumerate(sess):
+            x = outs[i]
+            i += 1
+            ctx.cov['evaluations'] += 1
+            desc = {'session (file sets of the successive scan calls in one process)': [{k.decode('latin1'): v.decode('latin1') for k, v in fs.items()} for (_, fs) in sess[:j + 1]], 'main': 'm'}
+            if is_crash(x):
+                ctx.violation('scan-crash', 'Theo::scan crashed in an editing session: ' + x[:300], desc)
+                break
+            fx = fields(x)
+            etoks, eerrs = lexoracle.scan(f, m)
+            if pid == 'C14' and parse_toks(fx['toks']) != etoks:
+                ctx.violation('scan-has-memory', 'call %d of an editing session returns a token stream that is not the tokenisation of the files passed to it' % j, desc)
+                break
+            errs = [(names.get(k, str(k)), fl, ln, rq) for (k, fl, ln, rq) in parse_perrs(fx['errs'])]
+            if pid == 'C15' and errs != eerrs:
+                ctx.violation('scan-has-memory', 'call %d of an editing session reports %s, expected %s' % (j, errs, eerrs), desc)
+                break
+            if j > 0:
+                ctx.nontrivial(repr(desc)[:400])
+    ctx.cov['editing_sessions'] = len(sessions)
+
+
 # ---------------------------------------------------------------- C15
 C15_THMS = ['Theo.C15_terminates', 'Theo.C15_include_cases', 'Theo.C15_expected_filename', 'Theo.C15_main_missing',
             'Theo.C15_missing_are_absent', 'Theo.C15_file_requests']
@@ -195,6 +229,7 @@ def check_C15(ctx):
     ctx.cov['exhaustive_graphs'] = len(ex)
     sa, sb = front.corr_scan(ctx, cases)
     scan_oracle(ctx, cases, sa, 'C15')
+    session_oracle(ctx, 'C15')
     # file requests of the whole compilation = names of the not-found errors, in order
     sub = cases if len(cases) < 1500 else ctx.rnd.sample(cases, 1500)
     reqs = ['GEN ' + files_req(m, f) for (m, f) in sub]
@@ -294,6 +329,12 @@ def check_C08(ctx):
         ts = sources.toks(defs, main)
         text = sources.text_of_tokens(ts, ctx.rnd, 0.08)
         cases.append((b'm', {b'm': text.encode()}, {'text': {'m': text}, 'defs': defs, 'main': main}))
+    # quoted file names that contain a line break (legal: the name is everything between the quotes), code after the include
+    for nm in (b'li\nb', b'\n', b'a\n\nb.theo'):
+        for pad in (0, 2):
+            fl = {b'm': b'\n' * pad + b'include "' + nm + b'"\n// c\nx0 := 1;\n\nx1 := x2 + 1;\n// d\nLOOP x1 DO\n  x2 := 2\nEND\n',
+                  nm: b'// lib\nx2 := 5;\n\nx3 := 1;\n'}
+            cases.append((b'm', fl, {'text': {k.decode('latin1'): v.decode('latin1') for k, v in fl.items()}}))
     cases.append((b'm', {b'm': b'PROGRAM g IN y DO INCLUDE "c" x0 := y INCLUDE "b" PROGRAM f IN x DO x0 := x END x2 := 1',
                          b'c': b'x1 := 1;', b'b': b'END'}, {'text': 'F5 witness (header continuing a line after an include)'}))
     # macro bodies that continue in an included file, with temporaries and slots as the position-giving tokens of statements
@@ -329,6 +370,18 @@ def check_C08(ctx):
         if is_crash(x) or is_crash(s):
             continue
         positions = set((t[2], t[3]) for t in parse_toks(fields(s)['toks']))
+        # independent of the implementation's own line counting: the lines of each supplied file on which the PINNED scanner
+        # specification finds a token
+        try:
+            indep = set()
+            for fn_, content_ in c[1].items():
+                for tk_ in lexoracle.lex(content_):
+                    indep.add((fn_, tk_[2]))
+            if b'__standards__' not in c[1]:
+                indep |= {(b'__standards__', l_) for l_ in range(1, 8)}
+            positions &= indep
+        except Exception:
+            pass
         if tables_oracle(ctx, c, x, positions):
             f = fields(x)
             if len(c[1]) > 1 or f['pb'].count(',') + 1 < f['li'].count(',') + 1:
@@ -696,6 +749,21 @@ def check_C11(ctx):
         if any(P['MACRO_APPLY_REACHED_MAX_PASSES'] in d[b][1] for b in bs):
             ctx.nontrivial(text)
         ctx.dist('flagged' if any(P['MACRO_APPLY_REACHED_MAX_PASSES'] in d[b][1] for b in bs) else 'finished')
+    # the number of rewriting steps is at most the budget, whatever the length of the input: a divergent macro that leaves one
+    # countable mark (an assignment to `cnt`) per rewrite, behind 0, 5 or 40 other statements
+    counting = ['DEFINE foo AS foo ; cnt := 1 END DEFINE\n' + 'y := 0 ; ' * k_ + 'foo' for k_ in (0, 5, 40)]
+    for text, b, f, raw in apply_trace(ctx, counting, budgets + [20]):
+        ctx.cov['evaluations'] += 1
+        if f is None:
+            ctx.violation('apply-crash', 'apply_macros crashed / hung: ' + raw[:300], {'source': text, 'passes': b})
+            continue
+        steps = sum(1 for t in parse_toks(f['toks']) if t[1] == b'cnt')
+        flagged = P['MACRO_APPLY_REACHED_MAX_PASSES'] in [e[0] for e in parse_perrs(f['errs'])]
+        if steps > b:
+            ctx.violation('more-steps-than-budget', 'with a budget of %d rewriting steps, %d steps were performed (%d marks in the result)' % (b, steps, steps), {'source': text, 'passes': b})
+        elif steps < b or not flagged:
+            ctx.violation('unfinished-not-flagged' if steps == b else 'fewer-steps-than-budget', 'a divergent macro under budget %d: %d steps performed, error flagged: %s' % (b, steps, flagged), {'source': text, 'passes': b})
+        ctx.nontrivial(text + '|%d' % b)
     # all pass budgets: terminating macro sets with budgets at the edges of the parameter's type (unsigned 32 bit) and of int;
     # a budget larger than the number of rewrites needed gives the fixed point without an error
     fin = []
@@ -837,6 +905,14 @@ def check_C02(ctx):
             text = ' '.join(v)
             cases.append((b'm', {b'm': text.encode('latin1')}, {'text': {'m': text}}))
     cases += front.program_files(ctx, ctx.n(500, 6000), mutate_frac=0.85, multi_frac=0.3)
+    # boundary literals (around 2^31, 2^32, 2^63, 2^64, 20 and 25 digits) at every position that takes a number, in sources
+    # that are otherwise error-free (so that every later stage sees them), also in direct calls of the built-in operators
+    from checks import vmprops as _vm
+    for lit in _vm.BOUNDARY_LITS:
+        for t in _vm.LITERAL_TEMPLATES + ['x0 := RUN __INC__ WITH x1 , %s END\n', 'x0 := RUN __DEC__ WITH x1 , %s END\n', 'x0 := RUN __INC__ WITH %s , 1 END\n',
+                                          'LOOP x1 DO x0 := x0 + %s END\n', 'PROGRAM f IN a DO x0 := a - %s END\nx1 := RUN f WITH 1 END\n']:
+            text = t % lit
+            cases.append((b'm', {b'm': text.encode()}, {'text': {'m': text}}))
     # macro definitions with boundary numbers in every numeric position, cut off at every token (deterministic family:
     # end of file inside the header, the pattern, the body, before END DEFINE, and complete + use site)
     NUMS = ['0', '1', '7', '2147483646', '2147483647', '99999999999', '9223372036854775808', '99999999999999999999']
@@ -966,6 +1042,9 @@ def check_C04(ctx, thms=None):
         'PROGRAM f IN a , b OUT r DO r := a + 1 END PROGRAM g DO x0 := 2 END x := RUN f WITH 1 , y END ; LOOP x DO m : y := y - 1 ; '
         'IF y = 0 THEN GOTO m END ; WHILE x != 0 DO x := RUN f WITH RUN f WITH x , 2 END , 3 END ; z := RUN g WITH END END ; STOP ; GOTO m',
         'PROGRAM h IN a DO e : a := a ; IF a = 3 THEN GOTO e ; STOP END q := RUN h WITH q END',
+        # a name defined twice, the first definition (with a call, a literal and a jump of its own) used in between
+        'PROGRAM h IN a DO x0 := a END PROGRAM f IN a DO m : x0 := RUN h WITH 3 END ; IF a = 2 THEN GOTO m END '
+        'PROGRAM g IN a DO x0 := RUN f WITH a END END PROGRAM f IN a , b DO x0 := b END x := RUN g WITH 1 END ; y := RUN f WITH 1 , 2 END',
     ]
     bases = [k.split(' ') for k in KITCHEN]
     bases = [[('!= 0' if t == '!=' else t) for t in b if t != '0' or True] for b in bases]
@@ -1026,10 +1105,13 @@ def check_C04(ctx, thms=None):
         verdicts.append((v, why))
     # every literal position (assignment, +/- operand, IF constant, RUN argument) with the boundary literals
     BND = ['2147483646', '2147483647', '2147483648', '4294967296', '9223372036854775808', '99999999999999999999']
-    for _ in range(ctx.n(40, 400)):
-        g = sources.Gen(r)
-        defs, main = g.program()
-        base = sources.toks(defs, main)
+    for it_ in range(ctx.n(40, 400) + len(bases)):
+        if it_ < len(bases):
+            base = bases[it_]
+        else:
+            g = sources.Gen(r)
+            defs, main = g.program()
+            base = sources.toks(defs, main)
         pos = [i for i, t in enumerate(base) if t.isdigit()]
         for i in (pos if len(pos) <= 12 else r.sample(pos, 12)):
             for lit in BND:
